@@ -223,6 +223,34 @@ def resolve(step, geo, env, si):
             if op == 'snap': d.update(min_thickness=sym.model_value(m, tau.e))
             return d
         return cs, rs
+    if op == 'rename_column' and 'cols' in step:
+        # list form: the new names are a permutation / chain of the old ones (all final names distinct)
+        cols = [_col(order, i) for i in step['cols']]
+        if any(c_ is None for c_ in cols) or len(set(id(c_) for c_ in cols)) != len(cols): return None, None
+        refs = [ref(c_) for c_ in cols]
+        olds = [c_.name for c_ in cols]
+        return dict(op=op, col=olds, name=CC.perm_names(olds, step['perm'])), lambda m: dict(op=op, cols=[r(m) for r in refs], perm=step['perm'])
+    if op == 'rename_layer' and 'layers' in step:
+        idxs = list(step['layers'])
+        if any(i >= len(geo.layerlist) for i in idxs): return None, None
+        olds = [geo.layerlist[i].name for i in idxs]
+        return dict(op=op, layer=olds, name=CC.perm_names(olds, step['perm'], 'zq')), lambda m: dict(op=op, layers=idxs, perm=step['perm'])
+    if op == 'add_extra_connection':
+        # a connection between two columns that share fewer than two nodes (what a damaged file may contain)
+        for a in order:
+            for b in order:
+                if a is b or a.is_against(b) or geo.connects(a, b): continue
+                ra, rb = ref(a), ref(b)
+                return dict(op='add_connection', cols=[a.name, b.name]), lambda m: dict(op='add_extra_connection', cols=[ra(m), rb(m)])
+        return None, None
+    if op == 'refresh':
+        return dict(op='refresh'), lambda m: dict(op='refresh')
+    if op == 'companion':
+        comp = getattr(geo, '_vx_companion', None)
+        if comp is None: return None, None
+        cs, rfn = resolve(step['do'], comp, env, si)
+        if cs is None or isinstance(cs, list): return None, None
+        return dict(op='companion', do=cs), lambda m: dict(op='companion', do=rfn(m))
     if op in ('split', 'delete_column', 'rename_column', 'triangulate'):
         cl = _col(order, step['col'])
         if cl is None: return None, None
@@ -234,6 +262,11 @@ def resolve(step, geo, env, si):
         if op == 'rename_column':
             # '<same>': rename a column to the name it already has (a no-op that must stay a no-op)
             nm = cl.name if step['name'] == '<same>' else step['name']
+            if nm == '<clash>':      # onto the name of another column: must be refused or done consistently
+                oth = _col(order, step['other'])
+                if oth is None or oth is cl: return None, None
+                r2 = ref(oth)
+                return dict(op=op, col=cl.name, name=oth.name), lambda m: dict(op=op, col=r(m), clash=r2(m))
             return dict(op=op, col=cl.name, name=nm), lambda m: dict(op=op, col=r(m), name=nm)
         return dict(op=op, col=cl.name), lambda m: dict(op=op, col=r(m))
     if op == 'readd_column':
@@ -290,6 +323,11 @@ def resolve(step, geo, env, si):
         nm = geo.layerlist[idx].name
         d = dict(op=op, layer=nm)
         if op == 'rename_layer': d['name'] = step['name']
+        if op == 'rename_layer' and step['name'] == '<clash>':     # onto the name of another layer
+            j = step['other']
+            if j >= len(geo.layerlist) or j == idx: return None, None
+            d['name'] = geo.layerlist[j].name
+            return d, lambda m: dict(op=op, layer=idx, clash=j)
         return d, lambda m: dict(d, layer=idx)
     if op == 'refine_layers':
         idxs = [i for i in step['layers'] if i < len(geo.layerlist)]
@@ -303,6 +341,18 @@ def resolve(step, geo, env, si):
         ctr = [env.syms['ox'], env.syms['oy']]
         return dict(op=op, angle=step['angle'], centre=[SReal(ctr[0]), SReal(ctr[1])]), \
             lambda m: dict(op=op, angle=step['angle'], centre=[sym.model_value(m, v) for v in ctr])
+    if op in ('copy_layers_from', 'give_layers') and (step.get('companion') or op == 'give_layers'):
+        # two-geometry history: the other geometry (2x1 columns, its own symbolic layers, one symbolic surface)
+        # is created on first use and stays part of the state; every clause is evaluated on it as well
+        if getattr(geo, '_vx_companion', None) is not None:
+            return dict(op=op, companion=True), lambda m: dict(op=op, companion=True)
+        n = step['n']
+        th = [env.pos('cz%d_%d' % (si, i)) for i in range(n)]
+        top = env.free('ctop%d' % si)
+        sf = env.between('csf%d' % si, top - th[0], top)
+        return dict(op=op, companion=True, thicknesses=th, top=top, surface=sf), \
+            lambda m: dict(op=op, companion=True, thicknesses=[sym.model_value(m, v.e) for v in th], top=sym.model_value(m, top.e),
+                           surface=sym.model_value(m, sf.e))
     if op == 'copy_layers_from':
         n = step['n']
         th = [env.pos('cz%d_%d' % (si, i)) for i in range(n)]
@@ -329,6 +379,10 @@ def geo_has_symbolic_oblique(geo):
 def step_kind(step):
     k = step['op']
     if k == 'refine' and step.get('bisect', False) is not False: k = 'refine[bisect]'
+    if k in ('rename_column', 'rename_layer'):
+        if 'cols' in step or 'layers' in step: k += '[list]'
+        elif step.get('name') == '<clash>': k += '[clash]'
+    if k == 'companion': k = 'companion.' + step_kind(step['do'])
     return k
 
 
@@ -350,43 +404,51 @@ def run_sequence(fam, steps, name, failures, samples, distinct, counters):
         prof = sys.getprofile()
         # status of every clause in the initial state (must hold: the families are valid meshes)
         status = {}
-        def evaluate(si, kind, promises, applicable=True):
+        def evaluate(si, kind, promises, report_it=True):
+            # every geometry that takes part in the history: the primary one and, once a two-geometry
+            # operation (copy_layers_from / give_layers with a companion) has run, the companion
+            targets = [('', geo)]
+            if getattr(geo, '_vx_companion', None) is not None: targets.append(('companion:', geo._vx_companion))
+            for pre, g in targets:
+                evaluate_one(si, kind, promises and not pre, report_it, pre, g)
+        def evaluate_one(si, kind, promises, report_it, pre, g):
             sys.setprofile(None)
             try:
-                D = structure_defects(geo, promises)
-                Fm = solver_formulas(geo)
+                D = structure_defects(g, promises)
+                Fm = solver_formulas(g)
             finally:
                 sys.setprofile(prof)
+            tgt = 'companion' if pre else 'primary'
             for cl in CONCRETE_CLAUSES:
-                held = status.get(cl, True)
+                held = status.get(pre + cl, True)
                 ok = not D[cl]
-                if cl == 'valid-mesh' and not promises:
-                    status[cl] = ok          # low-level edits promise nothing: only remember the state
+                if (cl == 'valid-mesh' and not promises) or not report_it:
+                    status[pre + cl] = ok          # low-level edits promise nothing / set-up step: only remember the state
                     continue
                 if held:
                     counters['concrete'] += 1
-                    r = c.prove(ok, '%s after %s' % (cl, kind))
+                    r = c.prove(ok, '%s%s after %s' % (pre, cl, kind))
                     if not ok:
                         m = c.failures[-1]['model']
-                        failures.append(dict(key='%s/%s' % (kind, cl), what='%s: after step %d %s: %s' % (name, si, kind, D[cl][0]),
+                        failures.append(dict(key='%s/%s%s' % (kind, pre, cl), what='%s: after step %d %s: %s%s' % (name, si, kind, pre, D[cl][0]),
                                              replay=dict(family=fam, values=env.witness(m), steps=[fn(m) for fn in replay_steps],
-                                                         clause=cl, step=si, detail=D[cl][:3])))
-                status[cl] = ok
+                                                         clause=cl, step=si, detail=D[cl][:3], target=tgt)))
+                status[pre + cl] = ok
             for cl in SOLVER_CLAUSES:
                 f = Fm[cl]
-                held = status.get(cl, True)
-                if held:
+                held = status.get(pre + cl, True)
+                if held and report_it:
                     distinct.add((cl, z3.simplify(f).hash()))
-                    r = c.prove(f, '%s after %s' % (cl, kind))
+                    r = c.prove(f, '%s%s after %s' % (pre, cl, kind))
                     if r == 'sat':
                         m = c.failures[-1]['model']
-                        failures.append(dict(key='%s/%s' % (kind, cl), what='%s: after step %d %s: %s fails for some values' % (name, si, kind, cl),
+                        failures.append(dict(key='%s/%s%s' % (kind, pre, cl), what='%s: after step %d %s: %s%s fails for some values' % (name, si, kind, pre, cl),
                                              replay=dict(family=fam, values=env.witness(m), steps=[fn(m) for fn in replay_steps],
-                                                         clause=cl, step=si)))
-                    status[cl] = (r == 'unsat')
+                                                         clause=cl, step=si, target=tgt)))
+                    status[pre + cl] = (r == 'unsat')
                 else:
                     r, _m = c.solve(z3.Not(f))
-                    status[cl] = (r == 'unsat')
+                    status[pre + cl] = (r == 'unsat')
         evaluate(-1, 'initial', True)
         if not all(status.values()):
             return 'initial-state-invalid:%s' % [k for k, v in status.items() if not v]
@@ -424,7 +486,7 @@ def run_sequence(fam, steps, name, failures, samples, distinct, counters):
             if step['op'] == 'refine' and not isinstance(cs, list) and cs['cols'] and all(geo.column.get(nm) is not None for nm in cs['cols']) \
                     and any(cl.num_nodes > 4 for cl in geo.columnlist):
                 kind += '-refused'      # refine() declined (a column with more than 4 sides is affected) and kept the selection
-            evaluate(si, kind, step['op'] in CC.PROMISES_VALID_MESH)
+            evaluate(si, kind, step['op'] in CC.PROMISES_VALID_MESH, report_it=not step.get('setup'))
         if len(samples) < 2:
             samples.append(dict(sequence=[step_text(s) for s in steps], family=fam,
                                 final_status={k: v for k, v in status.items()}, columns=geo.num_columns))
@@ -473,6 +535,19 @@ HANG = dict(kind='HANG', nz=2, hang=[1, 0, 1, 0], surf='sparse')
 
 def _subsets(n):
     return [[i for i in range(n) if m >> i & 1] for m in range(1, 2 ** n)]
+
+
+# round 4 alphabets
+SHARE = [dict(op='copy_layers_from', n=2, companion=True), dict(op='give_layers', n=2)]
+SHARED_EDITS = [dict(op='translate'), dict(op='rename_layer', layer='last', name='zz'), dict(op='refine_layers', layers=[1], factor=2),
+                dict(op='companion', do=dict(op='translate')), dict(op='companion', do=dict(op='rename_layer', layer=1, name='zq')),
+                dict(op='companion', do=dict(op='refine_layers', layers=[], factor=2))]
+RENAMES = [dict(op='rename_column', cols=[0, 1], perm='swap'), dict(op='rename_column', cols=[0, 1, 2], perm='cycle'),
+           dict(op='rename_column', cols=[0, 1], perm='chain'), dict(op='rename_layer', layers=[1, 2], perm='swap'),
+           dict(op='rename_layer', layers=[0, 1], perm='chain'),
+           dict(op='rename_column', cols=[1, 0], perm='unchain'), dict(op='rename_layer', layers=[2, 1], perm='unchain'),
+           dict(op='rename_column', col=0, name='<clash>', other=1), dict(op='rename_layer', layer=1, name='<clash>', other=2)]
+DAMAGE = [[dict(op='add_extra_connection', setup=True)], [dict(op='delete_connection', which='first')], [dict(op='readd_column', col=0, name='new')]]
 
 
 def alphabet(level, ncols):
@@ -550,6 +625,24 @@ def plan(tier):
         seqs = [[b, f] for b in breakers for f in fixers]
         if thorough: seqs += [[b, f, dict(op='split', col=1, node=0)] for b in breakers[:2] for f in fixers] + [[dict(op='check_fix')]]
         batches(fam, seqs, '%s/repair' % tag, 4)
+    # --- round 4 -------------------------------------------------------------------------------------
+    # (a) histories over TWO geometries linked by copy_layers_from (either direction): an edit of either
+    #     geometry afterwards must leave BOTH consistent (all clauses are evaluated on both)
+    for tag, fam, n in (fams if thorough else fams[:1]):
+        seqs = [[s_, e] for s_ in SHARE for e in SHARED_EDITS if thorough or e.get('do', e)['op'] != 'refine_layers']
+        if thorough and tag == 'R2x2': seqs += [[s_, e, f] for s_ in SHARE for e in SHARED_EDITS for f in SHARED_EDITS if e is not f]
+        batches(fam, seqs, '%s/two-geometries' % tag, 3 if not thorough else 6)
+    # (b) list forms of rename_column / rename_layer whose new names are old names of other renamed objects
+    #     (swap, 3-cycle, chain: all final names distinct), and a rename onto a name that stays in use
+    for tag, fam in (('R2x2', R22), ('MIX', MIXS), ('R2x2-atm0', dict(R22, atm=0)), ('R2x2-atm1', dict(R22, atm=1))):
+        seqs = [[a] for a in RENAMES]
+        if thorough: seqs += [[a, b] for a in RENAMES[:5] for b in (dict(op='refine', sel=[0]), dict(op='delete_column', col='last'))]
+        if thorough or tag in ('R2x2', 'R2x2-atm0'): batches(fam, seqs, '%s/rename-lists' % tag, 5 if not thorough else 10)
+    # (c) check(fix=True) called directly (not through reduce) on a mesh with an extra / a missing connection
+    #     whose derived data were refreshed by the caller beforehand (set-up steps: not reported themselves)
+    for tag, fam, n in fams:
+        seqs = [pre + [dict(op='refresh', setup=True), f] for pre in DAMAGE for f in (fixers if thorough or tag == 'R2x2' else fixers[:1])]
+        if thorough or tag != 'R3x2': batches(fam, seqs, '%s/check-fix' % tag, 3 if not thorough else 6)
     # meshes with many-sided columns: decompose (concrete coordinates where angles are needed)
     D = [dict(op='decompose', sel='all'), dict(op='decompose', sel='big'), dict(op='triangulate', col=0), dict(op='refine_layers', layers=[], factor=2),
          dict(op='snap', sel=[1]), dict(op='delete_column', col='last'), dict(op='reduce', sel=[0, 1, 2])]
@@ -603,6 +696,9 @@ def run(tier, seed, rep):
         'add/delete well, translate (symbolic shift), rotate 30 and 90 degrees about the symbolic origin, copy_layers_from (1 or 3 symbolic layers), decompose_columns, triangulate_column',
         'length 2: %s; length 3 (thorough only): 6-operation alphabet cubed on RECT(2x2), 4-operation alphabet cubed on RECT(3x2) and MIX, 3 cubed on MIXc and HANG' % ('16-operation alphabet squared on RECT(2x2), 8-operation alphabet squared on RECT(3x2) and MIX, 7 squared on MIXc and HANG' if tier == 'thorough' else '6-operation alphabet squared on RECT(2x2), 4-operation alphabet squared on RECT(3x2) and MIX, 3 squared on MIXc and HANG'),
         'targeted repair sequences on the three main meshes: {triangulate_column, delete+add column (first / last), delete_connection} followed by {check(fix=True, silent=True), reduce(all)}',
+        'two-geometry histories (round 4): copy_layers_from in either direction between the mesh and a second geometry (2x1 columns, 2 symbolic layers, symbolic top, one symbolic surface), followed by translate / rename_layer / refine_layers of either geometry; ALL clauses are evaluated on both geometries after every step (keys <op>/companion:<clause> for the second geometry, companion.<op>/<clause> for an edit applied to it)',
+        'list forms of rename_column / rename_layer (round 4): swap, 3-cycle, chain (each takes the old name of the next, the last a fresh name), the same chain listed in the order that works one by one, and a rename onto a name that stays in use; on RECT(2x2) with atmosphere types 2 and 0 (thorough: also type 1 and MIX, each followed by refine / delete_column)',
+        'check(fix=True, silent=True) and reduce(all) on a mesh with an EXTRA connection (add_connection between two columns that share fewer than two nodes) or a missing one (delete_connection, delete+add column) after the caller refreshed the derived data (setup_block_name_index, setup_block_connection_name_index, identify_neighbours)',
         'for each sequence and each path: the four solver clauses hold for ALL values of the symbols']
     rep.outside += ['sequences longer than %d; operation arguments outside the alphabet; meshes other than the five listed' % (3 if tier == 'thorough' else 2),
                     'random sequences up to length 25 on geometries up to 300 columns, the shipped geometries, the file round trip after the edits (C03 covers the round trip)',
@@ -614,6 +710,7 @@ def run(tier, seed, rep):
         'a clause already broken by an earlier step of the sequence is not re-reported for later steps (it is re-evaluated, so an operation that repairs it re-arms it)',
         'name-lists compares the stored lists with what the REAL setup_block_name_index / setup_block_connection_name_index produce now (then restores the stored lists)',
         'valid-mesh is only required after refine, split_column, decompose_columns and reduce (operations that promise a valid mesh)',
+        'steps marked setup (add_extra_connection, refresh) only prepare a state: the clause status is recorded after them but nothing is reported for them (an extra connection deliberately breaks connection-edge / valid-mesh)',
         'triangulate_column is a low-level call: name lists are not expected to be refreshed by it only if the clause was already broken; otherwise staleness is reported under its key']
     rep.trusted += ['structure_defects / solver_formulas in harness/C10.py; shoelace and canonical ordering from harness/C11.py']
     rep.process_failures()
